@@ -108,6 +108,27 @@ def ledger_guards(rep, prog):
                         elif p.get("k") in ("ConditionalOperator", "SwitchStmt"):
                             chain.append((id(p), slot))
                     groups.setdefault(scope, []).append((c, tuple(chain)))
+            # the vectors handed to add_force are the ones that were computed to cancel: a local that holds one of them is not
+            # modified on its own (vec3::cap, normalize, +=, ...) between its computation and its application
+            for scope, lst in groups.items():
+                for c, _ch in lst:
+                    a0 = strip(call_args(c)[0]) if call_args(c) else {}
+                    while a0.get("k") in ("ImplicitCastExpr", "CXXConstructExpr", "MaterializeTemporaryExpr") and len([x for x in a0.get("c", []) if isinstance(x, dict)]) == 1:
+                        a0 = strip([x for x in a0["c"] if isinstance(x, dict)][0])
+                    if a0.get("k") != "DeclRefExpr" or (a0.get("ref") or {}).get("dk") != "Var":
+                        continue
+                    did = a0["ref"]["did"]
+                    for m in walk(fn["body"]):
+                        tgt = None
+                        if m.get("k") == "CXXMemberCallExpr" and not m.get("cconst"):
+                            tgt = strip(call_obj(m) or {})
+                        elif m.get("k") in ("CompoundAssignOperator",) or (m.get("k") == "CXXOperatorCallExpr" and m.get("op") in ("+=", "-=", "*=", "/=", "=")):
+                            tgt = strip(m["c"][0] if m["k"] == "CompoundAssignOperator" else m["c"][1])
+                        if tgt is not None and tgt.get("k") == "DeclRefExpr" and (tgt.get("ref") or {}).get("did") == did and fi.order[id(m)] < fi.order[id(c)]:
+                            good = False
+                            rep.violation(rule, prog, fn, m, "a force of a zero-sum set is modified on its own before it is applied",
+                                          "%s changes '%s' with '%s' (line %s) after the forces of the face / hinge were computed and before node::add_force (line %s): the forces of one term cancel only as they were computed - a change applied to each vector separately (a cap on its norm, a rescaling) takes effect for some nodes and not for others, and the term then exerts a net force and torque on the cell" % (fn["qn"], a0["ref"].get("name"), short(m, 50), m.get("l"), c.get("l")))
+                            break
             for scope, lst in groups.items():
                 if len(lst) < 2:
                     continue
